@@ -452,6 +452,11 @@ MUTANTS = [
         // Calculate new length''', new='''        let prepared_statement = cursor.read_string()?;
 
         // Calculate new length'''),
+    dict(id="c08-close-applied-at-replay", prop="C08", file="src/client.rs", expect="C08-R4",
+         what="D33 again: the Close is applied to the name map when the batch is replayed",
+         old='''                                        // The name was forgotten when the Close was read, in its place among the
+                                        // Parse messages of the batch.''',
+         new='''                                        self.prepared_statements.remove(&close.name);'''),
     dict(id="c08-rewrite-changes-query", prop="C08", file="src/messages.rs", expect="C08-R6",
          what="rewrite touches more than the name",
          old='''            PREPARED_STATEMENT_COUNTER.fetch_add(1, Ordering::SeqCst)
